@@ -59,7 +59,7 @@ Archetype& EntityManager::getArchetype(const ComponentIdMask& mask, const Shared
         }
         auto chunk_size = archetype_chunk_size_info_.default_size;
 
-        if (max < min) {
+        if (max > 0 && max < min) { // max == 0: no function set an upper bound
             throw std::runtime_error("Can not create archetype: "
                                      + std::to_string(max) + " < " + std::to_string(min));
         }
